@@ -511,3 +511,28 @@ _SECOND_REVIEW = {
 }
 for _k, _v in _SECOND_REVIEW.items():
     CHECKS[_k]["level_note"] += " Second review: " + _v
+
+
+# Corrections after the third (false-alarm only) review, DESIGN.md section 20.
+_THIRD_REVIEW = {
+    "C01": "what the response records as its input is not compared.",
+    "C03": "an operation refused by the client before a byte was transmitted makes the case infeasible; a confirm-timeout or persist token may add <confirmed/>.",
+    "C04": "a driver that refuses a second session outright (transport untouched) ends the history as infeasible.",
+    "C05": "timeout or privilege class for every operation that changes the privilege level.",
+    "C07": "a driver that refuses a second session outright (transport untouched) makes a re-open case infeasible.",
+    "C08": "replies that must be returned are sent in the first half of a 40-120 ms margin above the transit bound; the server advertises the standard optional capabilities; a call the server never saw a request for makes the case infeasible, so does a second session refused outright.",
+    "C09": "capabilities are compared as sets.",
+    "C10": "failure lines in the middle of a dialogue are only those that mean the ssh client has given up; a second session refused outright is infeasible.",
+    "C11": "a transport that refuses a key passphrase at construction is a refusal like one at Open.",
+    "C12": "when the expected response never comes only 'nothing more is typed' is demanded, not how the send ends.",
+    "C13": "a file line over 64 KiB is sent, or refused with an error before anything is sent.",
+    "C14": "which key is used is judged by the server only (no demand on -i); with password and key configured the key need not be offered; no argv demands when Open was refused before ssh started.",
+    "C15": "a failure of the in-memory tier (which reaches the negotiation through a verif hook) only counts if the same opening also fails over a real connection through Open.",
+    "C16": "a parked read has to return (with or without an error); e2e replies are compared with the id the request carried.",
+    "C17": "synthetic variants that bring levels also name their default level.",
+    "C18": "word-wise trigger evaluation is accepted too; the complete result may include what had been read behind the trigger; compared modulo trailing blanks.",
+    "C19": "the definition writes auth-strict-key: false; an empty transport type may be rejected or read as the default.",
+    "C20": "an empty queue yields no bytes (nil or an empty slice); slices handed out are judged at hand-over only.",
+}
+for _k, _v in _THIRD_REVIEW.items():
+    CHECKS[_k]["level_note"] += " Third review: " + _v
